@@ -2,4 +2,4 @@ SPECIFICATION Spec
 CONSTANTS Configs <- MCConfigsQuick
           Masks = {1}
           MaxExtra = 1
-INVARIANTS TypeOK OnlyGenuine CorruptReported GenuineServed
+INVARIANTS TypeOK OnlyGenuine RetainedGenuine CorruptReported GenuineServed
